@@ -191,6 +191,29 @@ def _p12f(ctx):
     fr = ctx.fn1(r'^memory::MemoryManager::free$')
     g = ctx.graph(fr)
     x = g.x
+    # what the decision to start a cycle may depend on: the size of the backlog, getting the manager lock, and the previous
+    # cycle being complete (completed epoch == current epoch).  Any other condition in front of the epoch bump (the signal
+    # word, say: its no-reader bit stays set for good once the last receiver is gone) can switch reclamation off for ever
+    bumps2 = [a for a in x.atoms_on('MemoryManager.epoch') if a.op in WRITE_OPS]
+    foreign = []
+    for b_ in bumps2:
+        for sid in x.switches():
+            edges_ = [e_ for e_ in g.nodes[sid].succs if g.nodes[e_].kind == 'edge']
+            dom_ = [e_ for e_ in edges_ if x.dom({e_}, b_.nid)]
+            if not dom_ or len(dom_) == len(edges_):
+                continue
+            e = g.switch_expr(sid)
+            lds = x.loads_in(e)
+            calls_ = [g.call_name(c_) or '' for c_ in x.calls_in(e)]
+            ok_guard = any(re.search(r'Vec(::<.*>)?::len$|try_lock$|::lock$|Result(::<.*>)?::(is_ok|is_err|map|ok)$|Option(::<.*>)?::(is_some|is_none)$', c_) for c_ in calls_) or \
+                any(l_.on('MemoryManager.epoch') for l_ in lds) or any(s_[0] == 'fld' and s_[2] == 'MemoryManagerInner.epoch' for s_ in g.deep_walk(e)) or \
+                not lds and not any(s_[0] == 'fld' for s_ in g.deep_walk(e))
+            if not ok_guard:
+                foreign.append((sid, sorted({p_ for l_ in lds for p_ in l_.paths})[:2]))
+    if bumps2:
+        ctx.add('P12f', 'T-GUARD', fr, not foreign, 'a new cycle is started depending only on the backlog size, the manager lock and the completion of the previous cycle' if not foreign else
+                'starting a reclamation cycle is made to depend on %s (test at %s): a condition that can stay false for good (e.g. the signal word, whose no-reader bit is never cleared) stops reclamation for ever - retired memory grows without bound'
+                % (foreign[0][1], g.where(foreign[0][0])), where=g.where(foreign[0][0]) if foreign else None, sub='start-guards')
     clears = [a for a in x.atoms_on('AtomicSignal.flags') if a.op == 'fetch_and']
     tf = x.inlined(r'MemoryManagerInner::try_freeing$')
     true_edges = set()
@@ -527,6 +550,24 @@ def _p10g(ctx):
             why = 'on the "distance > accumulator" edge the accumulator takes %s, otherwise %s' % (sorted(takes), sorted(keeps))
     ctx.add('P10g', 'T-FLOW', fn, ok, 'the scan result is the maximum distance over all streams (the slowest stream bounds the writer)' if ok else
             'the stream scan does not fold with max (%s): the writer would be bounded by the wrong stream and overwrite unconsumed values' % why, sub='max-fold')
+    # the distance that is folded is (writer position - stream position): `past(cur_writer, rpos)`, not the other way round
+    dirs = []
+    for n_ in g.live():
+        nd = g.nodes[n_]
+        if nd.call is None or nd.call['inlined'] is not None or not re.search(r'wrapping_sub$', g.call_name(n_) or ''):
+            continue
+        a_ = g.call_args(n_)[:2]
+        if len(a_) < 2:
+            continue
+        from_w = [any(s_[0] == 'param' and s_[1] == g.root_inst and s_[2] == 2 for s_ in g.deep_walk(z_)) for z_ in a_]
+        from_p = [bool({s.nid for s in x.loads_in(z_)} & scans) for z_ in a_]
+        if any(from_w) and any(from_p):
+            dirs.append(from_w[0] and not from_p[0] and from_p[1] and not from_w[1])
+    if dirs:
+        okd = all(dirs)
+        ctx.add('P10g', 'T-FLOW', fn, okd, 'the scan measures (writer position - stream position)' if okd else
+                'the stream scan subtracts the writer position from the stream position (arguments of past() exchanged): every stream looks "too far", or the maximum is taken over negated distances - the writer is bounded by the wrong stream',
+                sub='distance-direction')
     for (nid, si) in somes:
         e = x.agg_expr(nid, si)
         okr = any(s[0] == 'phi' for s in g.walk(e)) or bool(x.calls_in(e))
